@@ -114,6 +114,8 @@ impl Decoder for Codec {
                 }
                 DecodeState::PublishHeader(fixed) => {
                     if let Some(hdr_len) = decode::publish_size(src, fixed.first_byte)? {
+                        // variable header cannot be longer than the frame
+                        ensure!(hdr_len <= fixed.remaining_length, DecodeError::InvalidLength);
                         if src.len() < hdr_len as usize {
                             return Ok(None);
                         }
